@@ -9,6 +9,11 @@ pub broadcast proof fn axiom_to_string_string(s: &String, r: String)
 pub broadcast proof fn axiom_string_eq_spec(a: String, b: String) ensures #[trigger] <String as PartialEqSpec<String>>::eq_spec(&a, &b) == (a@ == b@) { admit(); }
 #[verifier::allow(broadcast_without_trigger)]
 pub broadcast proof fn axiom_string_obeys_eq() ensures <String as PartialEqSpec<String>>::obeys_eq_spec() { admit(); }
+// a String is determined by its characters (needed to use `String` keys of a HashMap through their text): ASSUMED
+pub broadcast proof fn axiom_string_ext(a: String, b: String) ensures (#[trigger] a@ == #[trigger] b@) ==> a == b { admit(); }
+// std's String hashes and compares consistently with its value (vstd states this only for primitive keys): ASSUMED
+#[verifier::allow(broadcast_without_trigger)]
+pub broadcast proof fn axiom_string_key_model() ensures vstd::std_specs::hash::obeys_key_model::<String>() { admit(); }
 #[verifier::external_body] pub fn opaque_string() -> (r: String) { unimplemented!() }
 
 // ---- abort helpers for Option / Result (.unwrap() / .expect()) ----
@@ -245,6 +250,7 @@ impl World {
     pub open spec fn tok_bal(self, token: Seq<char>, holder: Seq<char>) -> nat { if self.cw20.dom().contains((token, holder)) { self.cw20[(token, holder)] } else { 0 } }
     pub open spec fn tok_supply(self, token: Seq<char>) -> nat { if self.supply.dom().contains(token) { self.supply[token] } else { 0 } }
 }
+#[derive(Clone, Copy)]
 pub struct QuerierWrapper { pub w: Ghost<World> }
 impl QuerierWrapper { pub open spec fn world(&self) -> World { self.w@ } }
 
